@@ -29,10 +29,18 @@ BRANCHES = {"min>value", "min_bits-range", "exp-range", "guard63", "min=max64", 
 def b32(x): return list(x.to_bytes(32, "big"))
 def u64(x): return list(x.to_bytes(8, "big"))
 
-def rings_estimate(value, minv, mb):
-    """upper estimate of the ring count (used only to size the run, never to judge)"""
-    m = max((value - minv).bit_length(), mb, 1)
-    return (m + 1) // 2
+def rings_of(value, minv, exp, mb):
+    """ring count the library will choose (input shaping only: used to size the run and to aim message lengths at the
+    capacity boundary, never to judge a result); None if the parameters are refused"""
+    U, I = 2**64 - 1, 2**63 - 1
+    if minv > value or not 0 <= mb <= 64 or not -1 <= exp <= 18: return None
+    if minv == U or exp < 0: return 1
+    if (minv and value > I) or (value and minv >= I): return None
+    mb = min(mb, 64 - minv.bit_length() if minv else 64)
+    if mb > 61 or value > I: exp = 0
+    v, v2, i = value - minv, ((U >> (64 - mb)) if mb else 0), 0
+    while i < exp and v2 <= U // 10: v //= 10; v2 *= 10; i += 1
+    return (max(v.bit_length(), mb, 1) + 1) // 2
 
 def label(r):
     o, i = r.get("out", {}), r.get("in", {})
@@ -61,22 +69,22 @@ def driver(chk, n_small, n_big):
             exp = rng.choice([-1, 0, 0, 1, 2, 3, 18])
             mb = rng.choice([0, 0, 1, 2, 3, 5, 6])
             r = rng.random()
-            if r < 0.08: minv, value = value + 1, value                 # min > value
-            elif r < 0.14: exp = rng.choice([-2, 19])
-            elif r < 0.20: mb = rng.choice([-1, 65])
-            elif r < 0.26: value = rng.choice([2**63 - 1, 2**63, 2**64 - 1]); minv = rng.choice([1, value])   # guards / exact for min = value = max
+            if r < 0.04: minv, value = value + 1, value                 # min > value
+            elif r < 0.08: exp = rng.choice([-2, 19])
+            elif r < 0.12: mb = rng.choice([-1, 65])
+            elif r < 0.18: value = rng.choice([2**63 - 1, 2**63, 2**64 - 1]); minv = rng.choice([1, value])   # guards / exact for min = value = max
         blind = rng.randrange(1, N)
         r = rng.random()
-        if r < 0.08: blind = rng.choice([N, N + 1, 2**256 - 1])
-        elif r < 0.14: blind = 0
-        rings = rings_estimate(value, minv, mb) if minv <= value else 1
+        if r < 0.05: blind = rng.choice([N, N + 1, 2**256 - 1])
+        elif r < 0.10: blind = 0
+        rings = rings_of(value, minv, exp, mb) or 1
         cap = 128 * (rings - 1)
-        ml = rng.choice([None, 0, 1, min(cap, 40), cap, cap + 1, rng.randrange(0, 4001)]) if not big else rng.choice([cap, 3000])
+        ml = rng.choice([None, 0, min(cap, 1), min(cap, 40), cap, cap, cap + 1]) if not big else rng.choice([cap, 3000])
         xl = rng.choice([None, 0, 1, 32, rng.randrange(0, 101)])
-        sess.append(dict(gen=rng.choice(gens), value=value, minv=minv, exp=exp, mb=mb, blind=blind, nonce=b32(rng.getrandbits(256)),
+        sess.append(dict(big=big, gen=rng.choice(gens), value=value, minv=minv, exp=exp, mb=mb, blind=blind, nonce=b32(rng.getrandbits(256)),
                          msg=None if ml is None else [rng.randrange(256) for _ in range(ml)],
                          extra=None if xl is None else [rng.randrange(256) for _ in range(xl)],
-                         plen=rng.choice([5134, 5134, 5134, rng.randrange(0, 5135), 64, 65, 200])))
+                         plen=rng.choice([5134] * 8 + [rng.randrange(0, 5135), rng.choice([64, 65, 100])])))
     cev = chk.record([{"e": "RpCommit", "in": {"blind": b32(s["blind"] % N or 1), "value": u64(s["value"]), "gen": s["gen"]}} for s in sess], "std")
     signs = []
     for s, c in zip(sess, cev):
@@ -85,8 +93,9 @@ def driver(chk, n_small, n_big):
              "value": u64(s["value"]), "min": u64(s["minv"]), "exp": s["exp"], "min_bits": s["mb"], "plen": s["plen"], "mlen": rng.choice([4096, 4096, 0, 50])}
         if s["msg"] is not None: i["msg"] = s["msg"]
         if s["extra"] is not None: i["extra"] = s["extra"]
-        signs.append({"e": "RpSign", "in": i})
+        signs.append({"e": "RpSign", "in": i, "big": s["big"]})
     sev = chk.record(signs, "std")
+    for e, sg in zip(sev, signs): e["big"] = sg["big"]
     ver = []
     for s in sev:
         o, i = s["out"], s["in"]
@@ -102,7 +111,10 @@ def driver(chk, n_small, n_big):
         elif r < 0.8: m["proof"] = p + [0]
         else: m["proof"] = p[:-1]
         ver.append({"e": "RpVerify", "in": m})
-    return cev + sev + chk.record(ver, "std")
+    # TLC re-derives the proof bytes of the small sign calls; for the 32-ring ones it verifies and rewinds the library's bytes only
+    # (their byte-exact prediction is part of the generated records)
+    sev_small = [{k: v for k, v in e.items() if k != "big"} for e in sev if not e["big"]]
+    return cev + sev_small + chk.record(ver, "std")
 
 def run(chk):
     quick = chk.tier == "quick"
